@@ -175,10 +175,11 @@ func createCompiledRouteHandler(route *ast.Route, bytecode []byte, wsHub *websoc
 			}
 		}
 
-		// Parse the request body for POST/PUT/PATCH requests. bodyMap stays nil
+		// Parse the request body for POST/PUT/PATCH/DELETE requests (the same set as
+		// the interpreted path in executeRoute). bodyMap stays nil
 		// when there is no body or it is not a JSON object.
 		var bodyMap map[string]interface{}
-		if ctx.Request.Method == "POST" || ctx.Request.Method == "PUT" || ctx.Request.Method == "PATCH" {
+		if ctx.Request.Method == "POST" || ctx.Request.Method == "PUT" || ctx.Request.Method == "PATCH" || ctx.Request.Method == "DELETE" {
 			contentType := ctx.Request.Header.Get("Content-Type")
 			shouldParseJSON := contentType == "" ||
 				contentType == "application/json" ||
